@@ -42,11 +42,24 @@ def path_lexicon(engine, ctx, params):
     if not bad: return {'status': 'ok', 'sample': {'lexicon entries': len(LEXICON) + len(exp)}, 'extra': {'fns': list(it.fn_seen)}}
     return {'status': 'violation', 'kind': 'lexicon', 'what': 'ASCII keyword differs from the lexicon: %s' % bad[:3], 'bad': [list(map(str, b)) for b in bad], 'message': str(bad[:3]), 'fns': list(it.fn_seen)}
 
+def _gc_tables():
+    import unicodedata
+    if 'gc_letter' in models_str.UNITAB: return
+    for name, first in (('gc_letter', 'L'), ('gc_number', 'N')):
+        rs = []; start = None
+        for cp in range(0x110000):
+            v = unicodedata.category(chr(cp))[0] == first
+            if v and start is None: start = cp
+            elif not v and start is not None: rs.append([start, cp - 1]); start = None
+        if start is not None: rs.append([start, 0x10FFFF])
+        models_str.UNITAB[name] = rs
+
 def restrict_names(ctx, names):
     """the property's name alphabet: letters, digits, '_' and inner '-' (ASCII letters/digits plus arbitrary Unicode letters)"""
     for cs in names.values():
         for i, c in enumerate(cs):
-            ok = [models_str.char_pred('is_alphabetic', c), models_str.char_pred('is_numeric', c), c == ord('_')]
+            _gc_tables()
+            ok = [models_str.char_pred('gc_letter', c), models_str.char_pred('gc_number', c), c == ord('_')]
             if 0 < i < len(cs) - 1: ok.append(c == ord('-'))
             ctx.assume(z3.Or(*ok))
 
@@ -107,6 +120,7 @@ def key_of(v): return '%s:%s' % (v['kind'], v.get('shape', 'lexicon').split('#')
 def main(tier, seed):
     from framework import Runner, Query
     R = Runner('C11', tier, seed); R.setup()
+    R.blocks = models_str.STD_BLOCKS if tier == 'quick' else None       # quick: names over Latin, CJK, fullwidth and pictograph blocks; thorough: all of Unicode
     R.assumptions += ['reference = my transcription (checks/peg.py) of the pest grammar in README.en.md, with Unicode categories from Python\'s unicodedata',
                       'the recogniser runs on one solver witness per explored path (class of names distinguished by the implementation), names restricted to letters/digits/_/inner -']
     R.run_query(Query('lexicon', 'c11', 'path_lexicon', [dict()], 'all ASCII keywords of both format instances vs the OpenNARS-compatible lexicon'), confirm, key_of)
